@@ -19,8 +19,8 @@ CLAUSES = {
     'C04': {'nc': set(), 'c': {'MeaningPreserved', 'PseudoExpansion', 'EveryInstructionLegal', 'TargetExact', 'LiLoadsValue',
                                'ValueFromFinalLayout', 'DataUnchanged'}, 'rel': {'DataUnchanged'}},
     'C08': {'nc': {'ValueFromFinalLayout'}, 'c': {'ValueFromFinalLayout'}, 'rel': set()},
-    'C09': {'nc': {'InOrderNoGaps', 'InstrSize', 'DataSize', 'AlignMinimal', 'AlignZeros', 'LabelEmitsNothing', 'DataUnchanged'},
-            'c': {'InOrderNoGaps', 'InstrSize', 'DataSize', 'AlignMinimal', 'AlignZeros', 'LabelEmitsNothing', 'DataUnchanged'},
+    'C09': {'nc': {'InOrderNoGaps', 'InstrSize', 'DataSize', 'AlignMinimal', 'AlignZeros', 'LabelEmitsNothing', 'DataUnchanged', 'DataBytesExact'},
+            'c': {'InOrderNoGaps', 'InstrSize', 'DataSize', 'AlignMinimal', 'AlignZeros', 'LabelEmitsNothing', 'DataUnchanged', 'DataBytesExact'},
             'rel': set()},
     'C12': {'nc': set(), 'c': set(), 'rel': {'CompressKeepsSuccess'}},
     'C20': {'nc': set(), 'c': set(), 'rel': {'EligibleIsCompressed', 'NotLonger', 'LabelsNotLater', 'NeverLongerPerItem'}},
@@ -34,8 +34,8 @@ PLANS = {
             'thorough': [('control', 4, [G_NEAR, G_CB, G_CJ]), ('literals', 3, [[]]), ('far', 4, [G_CB, G_CJ, G_B, G_J])]},
     'C08': {'quick': [('values', 3, [G_NEAR, G_CJ]), ('values', 2, [G_J])],
             'thorough': [('values', 4, [G_NEAR]), ('values', 3, [G_CB, G_CJ, G_B, G_J])]},
-    'C09': {'quick': [('aligns', 4, [[]]), ('aligns', 3, [G_NEAR])],
-            'thorough': [('aligns', 5, [[]]), ('aligns', 4, [G_NEAR, G_CJ])]},
+    'C09': {'quick': [('aligns', 4, [[]]), ('aligns', 3, [G_NEAR]), ('datamix', 3, [[3]])],
+            'thorough': [('aligns', 5, [[]]), ('aligns', 4, [G_NEAR, G_CJ]), ('datamix', 4, [[3]])]},
     'C12': {'quick': [('control', 3, [G_NEAR, G_CJ]), ('values', 3, [G_NEAR, G_CJ]), ('far', 3, [G_J]), ('literals', 2, [[]]), ('abs', 4, [[]]), ('oddalign', 4, [[]])],
             'thorough': [('control', 4, [G_NEAR, G_CB]), ('values', 4, [G_NEAR]), ('values', 3, [G_CJ, G_B, G_J]), ('far', 4, [G_CB, G_CJ, G_B, G_J]), ('literals', 3, [[]]),
                          ('abs', 5, [[]]), ('oddalign', 5, [[]])]},
